@@ -38,9 +38,28 @@ def main(argv=None):
             print("ANALYSIS-ERROR property=%s: no checker module" % pid)
             return 2
         rules.run(ctx)
-        if args.tier == "thorough" and hasattr(rules, "thorough"):
-            rules.thorough(ctx)
+        selftest_problem = None
+        if args.tier == "thorough":
+            if hasattr(rules, "thorough"):
+                rules.thorough(ctx)
+            # the rules are re-run on single-edit variants of the tree under test: every breaking variant must be
+            # reported by the rule it targets, every behaviour-preserving variant must stay silent
+            from sa.selftest import selftest
+            summary, results, lines = selftest(pids=[pid], src_root=args.repo or progmod.REPO)
+            ctx.extra["variant_selftest"] = {
+                "summary": summary,
+                "variants": [{"id": x["id"], "kind": x["kind"], "desc": x["desc"], "ok": x["ok"], "result": x["msg"][:200]} for x in results],
+            }
+            for ln in lines:
+                print("SELFTEST " + ln)
+            print("SELFTEST %s" % summary)
+            if summary["breaking_missed"] or summary["preserving_flagged"]:
+                selftest_problem = "variant self-test: %d breaking variants missed, %d preserving variants flagged" % (
+                    summary["breaking_missed"], summary["preserving_flagged"])
         code, _v, _k = ctx.finish(write=not args.no_write)
+        if code == 0 and selftest_problem:
+            print("ANALYSIS-ERROR property=%s (checker defect, not a verdict on the property): %s" % (pid, selftest_problem))
+            return 2
         return code
     except Exception as e:  # noqa
         from sa.prog import AnalysisError
